@@ -579,7 +579,11 @@ class CausalInference(object):
             from pgmpy.inference import BeliefPropagation
 
             inference_algo = BeliefPropagation
-        elif not isinstance(inference_algo, Inference):
+        elif isinstance(inference_algo, Inference):
+            # An engine instance was given: use an engine of the same class (the
+            # queries below are run on `self.model`).
+            inference_algo = type(inference_algo)
+        else:
             raise ValueError(
                 f"inference_algo must be one of: 've', 'bp', or an instance of pgmpy.inference.Inference. Got: {inference_algo}"
             )
